@@ -1,5 +1,5 @@
 (* Refinement check for the call_rcu fork handshake: reads blocks "T nh" / "C h c" (call_rcu of callback c queued on helper h) / "P h" (helper splices
-   its queue) / "E h" (its grace period ends) / "I h c" (it invokes c) / "Z h" (it raises PAUSED) / "R h" (it clears PAUSED) / "B" (the forking thread
+   its queue) / "E h" (its grace period ends) / "I h c" (it invokes c) / "U h" (its rcu_unregister_thread() has returned) / "Z h" (it raises PAUSED) / "R h" (it clears PAUSED) / "G h" (its rcu_register_thread() has returned) / "B" (the forking thread
    raises PAUSE) / "K q0|q1|..." (the point where fork() copies the address space, with the callbacks found in each helper's queue) / "N" (PAUSE cleared) /
    ".", feeds them to the extracted ForkRun.fstep and compares the queues at the fork with the model's. *)
 open Fork_model
@@ -25,6 +25,8 @@ let () =
           | [] -> bad := Some (Printf.sprintf "action %d: helper %s invokes callback %s, the model's batch is empty" !n h c)) end
      | ["Z"; h] -> step (HPause (nat_of_int (int_of_string h))) l
      | ["R"; h] -> step (HResume (nat_of_int (int_of_string h))) l
+     | ["U"; h] -> step (HUnreg (nat_of_int (int_of_string h))) l
+     | ["G"; h] -> step (HReg (nat_of_int (int_of_string h))) l
      | ["B"] -> step FBegin l
      | ["N"] -> step FEnd l
      | "K" :: rest -> if !bad = None then begin
